@@ -39,7 +39,7 @@ fn meta() -> Meta {
     Meta {
         id: "C11",
         level: "fault_enumeration",
-        rule: "for every history (the fixed word W W W5 W W R W5 Reopen W5 W5 W plus all words of length <= 3 over {W20, W5, R} (quick) / <= 5 over {W20, W5, R, Reopen} (thorough), each after 0 or 1 clean earlier runs) and every configuration (naming x cleanup x symlink x append), every file-system point hit by the history is a crash state; each crash state is restarted with append on and off; distinct_nontrivial = distinct (configuration, history, crash site, occurrence) where the crash falls inside a rotation, cleanup or compression (not directly before a plain write); with a symlink configured the link must resolve to the file holding the restarted run's last record; of all files known the newest k+m must survive the restarted run; the files are judged after the first record of the restarted run as well as at its end",
+        rule: "for every history (the fixed word W W W5 W W R W5 Reopen W5 W5 W plus all words of length <= 3 over {W20, W5, R} (quick) / <= 5 over {W20, W5, R, Reopen} (thorough), each after 0 or 1 clean earlier runs) and every configuration (naming x cleanup x symlink x append), every file-system point hit by the history is a crash state; each crash state is restarted with append on and off; distinct_nontrivial = distinct (configuration, history, crash site, occurrence) where the crash falls inside a rotation, cleanup or compression (not directly before a plain write); with a symlink configured the link must resolve to the file holding the restarted run's last record; of all files known the newest k+m must survive the restarted run; the files are judged after the first record of the restarted run as well as at its end; when the interposition shim is loaded (LD_PRELOAD, harness/shim/fsshim.c) every libc call that changes the directory tree (rename, link, unlink, symlink, open with O_CREAT / O_TRUNC, mkdir, rmdir, truncate) below the log directory is a crash point as well, whether or not a guarded hook sits in front of it (states equal to the preceding one are not recorded twice); the real-kill validation aborts child processes at those points, too",
         assumptions: vec![
             "process kill, not power loss: the directory as the kernel sees it survives; a single write(2) is atomic with respect to the kill".into(),
             "a kill inside io::copy is represented by the state before gz finish (truncated gzip stream, original still present)".into(),
@@ -100,7 +100,7 @@ fn units(_tier: &str) -> usize {
     grid().len() + NG.len()
 }
 fn bounds(tier: &str) -> Value {
-    json!({"configurations": grid().len(), "histories_per_configuration": words(tier).len(), "restart_variants_per_crash_state": 2, "real_kill_validation_histories": NG.len()})
+    json!({"configurations": grid().len(), "histories_per_configuration": words(tier).len(), "restart_variants_per_crash_state": 2, "real_kill_validation_histories": NG.len(), "system_call_level_crash_points": crate::hooks::shim_available()})
 }
 
 #[derive(Clone, Debug)]
@@ -115,6 +115,24 @@ struct CrashState {
 }
 
 const SYMLINK: &str = "link_to_current";
+/// crash states announced by the system-call shim are numbered from here (hook hits from 0)
+const SYS_BASE: usize = 1_000_000;
+
+fn dir_signature(dir: &Path) -> Vec<(String, u64, u64, String)> {
+    use std::os::unix::fs::MetadataExt;
+    let mut v = Vec::new();
+    if let Ok(rd) = std::fs::read_dir(dir) {
+        for e in rd.flatten() {
+            let p = e.path();
+            if let Ok(md) = std::fs::symlink_metadata(&p) {
+                let target = std::fs::read_link(&p).map(|t| t.to_string_lossy().to_string()).unwrap_or_default();
+                v.push((e.file_name().to_string_lossy().to_string(), md.len(), md.ino(), target));
+            }
+        }
+    }
+    v.sort();
+    v
+}
 
 /// Executes the history with the crash overlay; returns the crash states (including the final
 /// state) and all lines in logging order.
@@ -142,17 +160,60 @@ fn run_with_snapshots(c: &Case, word: &[HOp], snaps_root: &Path, abort_at: Optio
         env.clock.advance_secs(1);
     }
     acked.store(h.accepted.len(), Ordering::SeqCst);
+    // the directory as a kill would leave it, by (name, length, inode, link target): states that a
+    // hook and the system call behind it both announce are recorded once
+    let last_sig: Arc<Mutex<Option<Vec<(String, u64, u64, String)>>>> = Arc::new(Mutex::new(None));
     {
         let mut g = env.ctx.fs.lock().unwrap();
         g.enabled = true;
-        g.abort_at = abort_at;
+        g.abort_at = abort_at.filter(|k| *k < SYS_BASE);
+        if crate::hooks::shim_available() {
+            g.sys_dir = Some(dir.clone());
+            g.abort_at_sys = abort_at.filter(|k| *k >= SYS_BASE).map(|k| k - SYS_BASE);
+        }
+        if abort_at.is_none() && crate::hooks::shim_available() {
+            let acked = Arc::clone(&acked);
+            let states = Arc::clone(&states);
+            let dir = dir.clone();
+            let root = snaps_root.to_path_buf();
+            let clock = Arc::clone(&env.clock);
+            let last_sig = Arc::clone(&last_sig);
+            g.on_sys = Some(Box::new(move |op, n, _path| {
+                let sig = dir_signature(&dir);
+                let mut ls = last_sig.lock().unwrap();
+                if ls.as_ref() == Some(&sig) {
+                    return;
+                }
+                *ls = Some(sig);
+                let idx = SYS_BASE + n;
+                let to = root.join(format!("s{idx}"));
+                scratch::copy_dir(&dir, &to);
+                let mut created = BTreeMap::new();
+                for name in family::list_names(&dir) {
+                    if let Some(t) = clock.created_if_known(&dir.join(&name)) {
+                        created.insert(name, t);
+                    }
+                }
+                states.lock().unwrap().push(CrashState {
+                    site: op,
+                    occ: n,
+                    idx,
+                    acked: acked.load(Ordering::SeqCst),
+                    dir: to,
+                    created,
+                    now: clock.peek(),
+                });
+            }));
+        }
         if abort_at.is_none() {
+            let last_sig = Arc::clone(&last_sig);
             let acked = Arc::clone(&acked);
             let states = Arc::clone(&states);
             let dir = dir.clone();
             let root = snaps_root.to_path_buf();
             let clock = Arc::clone(&env.clock);
             g.on_hit = Some(Box::new(move |site, occ, idx, _path| {
+                *last_sig.lock().unwrap() = Some(dir_signature(&dir));
                 let to = root.join(format!("s{idx}"));
                 scratch::copy_dir(&dir, &to);
                 let mut created = BTreeMap::new();
